@@ -42,6 +42,7 @@ def run(ck):
         jobs.append((exe, ["disjoint", t, 40000 if thorough else 10000], {}))
     for t in (2, 2, 3, 4, 8):
         jobs.append((exe, ["lastrefs", t, 400000 if thorough else 40000], {}))
+    jobs.append((exe, ["highcount"], {}))
     jobs.append((tsan, ["lastrefs", 2, 3000], {"TSAN_OPTIONS": "exitcode=66 halt_on_error=0"}))
     jobs.append((tsan, ["counter", 4, 50000 if thorough else 20000, 2], {"TSAN_OPTIONS": "exitcode=66 halt_on_error=0"}))
     jobs.append((tsan, ["counter", 8, 5000, 1], {"TSAN_OPTIONS": "exitcode=66 halt_on_error=0"}))
